@@ -262,3 +262,37 @@ Lemma adversarial_example cfg :
   h_out (ch0_run cfg fs) = [OTuneOk 65535 4096 (c_heartbeat cfg); OOpen (c_vhost cfg);
                             OTuneOk 7 131072 (c_heartbeat cfg); OOpen (c_vhost cfg)].
 Proof. split; reflexivity. Qed.
+
+(* ---- the decidable predicate of the ch0seq family holds of every model run ---- *)
+Definition ch0_wf (i : ch0_in) : bool :=
+  forallb (fun f => match f with ITune cm fm _ => (0 <=? cm) && (0 <=? fm) | _ => true end)
+          (zi_frames i).
+
+Theorem ch0_model_ok i : ch0_wf i = true -> ch0_prop_ok i (ch0_model i) = true.
+Proof.
+  intros Hwf. unfold ch0_wf in Hwf. rewrite forallb_forall in Hwf.
+  unfold ch0_prop_ok, ch0_model. cbn [zo_out zo_errs zo_state].
+  apply andb_true_iff; split; [apply andb_true_iff; split|].
+  - apply forallb_forall. intros x Hx.
+    pose proof (outputs_justified (zi_cfg i) (zi_frames i)) as HJ.
+    rewrite Forall_forall in HJ. specialize (HJ x Hx).
+    destruct x as [m r|c f hb|v]; cbn [out_justified] in HJ; [reflexivity| |].
+    + destruct HJ as (cm & fm & h & Hin & -> & -> & ->).
+      specialize (Hwf _ Hin). cbn in Hwf. apply andb_true_iff in Hwf. destruct Hwf as [Hc Hf].
+      apply Z.leb_le in Hc. apply Z.leb_le in Hf.
+      destruct (tune_bounds cm Hc) as (A & _ & _ & _).
+      destruct (tune_bounds fm Hf) as (_ & _ & C & _).
+      rewrite Z.eqb_refl.
+      repeat (apply andb_true_iff; split); try reflexivity;
+        try (apply Z.ltb_lt; lia); apply Z.leb_le; lia.
+    + subst v. apply bytes_eqb_refl.
+  - apply forallb_forall. intros f Hf.
+    destruct f as [mechs|cm fm h| |code| | | | | ]; try reflexivity.
+    destruct (code =? 200) eqn:E; [reflexivity|]. cbn [orb].
+    apply existsb_exists. exists (Some code). split.
+    + apply refusal_code_recorded; [exact Hf|]. apply Z.eqb_neq. exact E.
+    + cbn. apply Z.eqb_refl.
+  - destruct (h_state (ch0_run (zi_cfg i) (zi_frames i))) eqn:E; try reflexivity.
+    cbn [cst_eqb negb orb]. apply existsb_exists. exists IOpenOk. split; [|reflexivity].
+    apply (open_only_after_ok _ _ E).
+Qed.
